@@ -51,6 +51,7 @@ def num_cfg(maxlen, from_file, alphabet=NUM_ALPHABET_FULL):
   Alphabet = {{{", ".join(core.tla_str(c) for c in alphabet)}}}
   MaxLen = {maxlen}
   FromFile = {"TRUE" if from_file else "FALSE"}
+  NormalizeFirst = TRUE
 SPECIFICATION NumSpec
 INVARIANT C14_SingleTokenValue
 INVARIANT C14_NoSilentSplit
@@ -58,16 +59,32 @@ INVARIANT C14_PyIntsAreIntegers
 """
 
 
-def str_cfg(maxlen, alphabet):
+def str_cfg(maxlen, alphabet, normalize_first=True):
     return f"""CONSTANTS
   Alphabet = {{{", ".join(core.tla_str(c) for c in alphabet)}}}
   MaxLen = {maxlen}
   FromFile = FALSE
+  NormalizeFirst = {"TRUE" if normalize_first else "FALSE"}
 SPECIFICATION StrSpec
 INVARIANT C14_PipelineIsPythonDecoding
+INVARIANT C14_EscapesIgnoreNewlineSequence
 INVARIANT C14_PipelineRejectsWhatPythonRejects
 INVARIANT C14_AdjacentConcat
 """
+
+
+def literal_envs():
+    """The environments a string literal is evaluated in, by the specification's name of the
+    newline_sequence.  newline_sequence is the only environment option that reaches the string
+    conversion of Lexer.wrap; the other options varied along (keep_trailing_newline, trim_blocks,
+    lstrip_blocks) are about template data and must not matter either."""
+    import jinja2
+
+    return {
+        "n": jinja2.Environment(),
+        "rn": jinja2.Environment(newline_sequence="\r\n", keep_trailing_newline=True, trim_blocks=True),
+        "r": jinja2.Environment(newline_sequence="\r", lstrip_blocks=True),
+    }
 
 
 # --------------------------------------------------------------------------
@@ -340,7 +357,7 @@ def unit_text(units, chars):
         if k == "src":
             out.append(chars[u["at"] - 1])
         elif k == "ctl":
-            out.append({"LF": "\n", "BEL": "\a"}[u["name"]])
+            out.append({"LF": "\n", "BEL": "\a", "CR": "\r"}[u["name"]])
         elif k == "oct":
             out.append(chr(int("".join(chars[a - 1] for a in u["ats"]), 8)))
         elif k == "hex":
@@ -370,14 +387,16 @@ def python_value(text):
             return ("error", type(e).__name__)
 
 
-def check_string_case(ck, env, rec, chars, stats):
+def check_string_case(ck, envs, rec, chars, stats):
+    """envs: {newline_sequence name: Environment}; the case is judged in those the spec lists in rec["nls"]
+    (all of them unless a raw line break stands inside the quotes)."""
     text = "".join(chars)
     verdict = rec["verdict"]
-    case = {"kind": "string", "syms": rec["s"], "chars": chars, "verdict": verdict, "units": rec["units"]}
+    case = {"kind": "string", "syms": rec["s"], "chars": chars, "verdict": verdict, "units": rec["units"],
+            "nls": rec.get("nls", ["n"])}
     if verdict == "undetermined":
         stats["undetermined"] += 1
         return
-    got = jinja_value(env, text)
     py = python_value(text)
     raw_lf = "\n" in text
     if verdict == "error":
@@ -393,39 +412,56 @@ def check_string_case(ck, env, rec, chars, stats):
     elif not (raw_lf or any(0xD800 <= ord(c) <= 0xDFFF for c in text)):
         # (raw line feeds inside quotes are template syntax only; lone surrogates cannot be fed to literal_eval)
         raise core.MachineryError(f"Literals.tla decodes {text!r} as {want!r}, Python rejects it ({py[1]})")
-    stats["judged"] += 1
-    if got != ("value", want):
-        fp = {"kind": "string-value", "outcome": got[0], "shape": "adjacent" if len(rec["toks"]) > 1 else "single"}
-        ck.violation(dict(case, text=text, want=want, got=list(got)),
-                     f"string literal expression {text!r} should denote {want!r}, got {got}", fp)
-    elif stats["judged"] % 4999 == 0:
-        ck.sample({"literal": text, "value": want})
+    for nl in case["nls"]:
+        if nl not in envs:
+            continue
+        got = jinja_value(envs[nl], text)
+        stats["judged"] += 1
+        if got != ("value", want):
+            fp = {"kind": "string-value", "outcome": got[0], "shape": "adjacent" if len(rec["toks"]) > 1 else "single"}
+            where = ""
+            if nl != "n":
+                fp["newline_sequence"] = nl
+                where = f" (newline_sequence={envs[nl].newline_sequence!r})"
+            ck.violation(dict(case, text=text, want=want, got=list(got), nl=nl),
+                         f"string literal expression {text!r} should denote {want!r}, got {got}{where}", fp)
+        elif stats["judged"] % 4999 == 0:
+            ck.sample({"literal": text, "value": want, "newline_sequence": envs[nl].newline_sequence})
 
 
-def run_strings(ck, env):
+def run_strings(ck, envs):
     quick = ck.tier == "quick"
     maxlen = 5 if quick else 6
     alphabet = STR_ALPHABET_QUICK if quick else STR_ALPHABET_FULL
     r = core.run_tlc(PID, "Literals", str_cfg(maxlen, alphabet), name="strings", workers=8, timeout=3000, heap="8g")
-    ck.add_tlc(r, f"Literals strings: all symbol sequences <= {maxlen}")
+    ck.add_tlc(r, f"Literals strings: all symbol sequences <= {maxlen} x 3 newline sequences")
     if not r.ok:
         return
+    # vacuity guard: a pipeline that replaces line feeds AFTER decoding the escapes must break the invariant
+    r2 = core.run_tlc(PID, "Literals", str_cfg(4, ["q", "bs", "n", "a"], normalize_first=False), name="strings-mutant",
+                      workers=2, timeout=600)
+    ck.add_tlc(r2, "Literals strings with newline replacement after decoding (must violate)", expect_ok=False)
+    if "C14_EscapesIgnoreNewlineSequence" not in r2.invariant_violated:
+        raise core.MachineryError("C14_EscapesIgnoreNewlineSequence is vacuous: replacing line feeds after decoding does not violate it")
     rng = random.Random(ck.seed + 1)
     stats = {"undetermined": 0, "rejected": 0, "judged": 0, "python_agrees": 0}
     lines = set(r.printed())
     if len(lines) < 100:
         raise core.MachineryError("Literals.tla printed no string cases")
-    shapes = {"adjacent": 0, "spaced": 0, "escapes": 0}
+    shapes = {"adjacent": 0, "spaced": 0, "escapes": 0, "every_newline_sequence": 0, "default_newline_sequence_only": 0}
     for line in sorted(lines):
         rec = json.loads(line)
         shapes["adjacent"] += len(rec["toks"]) > 1
         shapes["spaced"] += "sp" in rec["s"]
         shapes["escapes"] += any(u["k"] != "src" for u in rec["units"])
+        shapes["every_newline_sequence"] += len(rec["nls"]) == 3
+        shapes["default_newline_sequence_only"] += rec["nls"] == ["n"]
         if len(ck.violations) > 200:
             continue
-        check_string_case(ck, env, rec, concretise(rec["s"], rng, 0), stats)
+        check_string_case(ck, envs, rec, concretise(rec["s"], rng, 0), stats)
         if "NA" in rec["s"] or "HH" in rec["s"] or "g" in rec["s"] or "o7" in rec["s"]:
-            check_string_case(ck, env, rec, concretise(rec["s"], rng, 1), stats)
+            # (the concretisation of the symbols does not interact with the newline setting: default environment)
+            check_string_case(ck, {"n": envs["n"]}, rec, concretise(rec["s"], rng, 1), stats)
     if not all(shapes.values()):
         raise core.MachineryError(f"vacuous model: string shapes never produced: {shapes}")
     ck.extra.setdefault("actions_covered", {}).update({"LexString:" + k: v for k, v in shapes.items()})
@@ -502,8 +538,9 @@ def string_spellings(s, rng):
     return forms
 
 
-def run_values(ck, env):
+def run_values(ck, envs):
     quick = ck.tier == "quick"
+    env = envs["n"]
     rng = random.Random(ck.seed + 2)
     values = ["", "'", '"', "\\", "\\\\", "'\"", "\n", "\r\n", "\r", "a\\nb", "\x00", "\x000", "\xe9", "\ud800", "\U0001f600",
               "{{ }}", "{% %}", "\\N{DIGIT ONE}", " ", "tab\t", "\\'", "ends with \\", "\x7f\x80", "caf\xe9 \u2603 \U0001f40d"]
@@ -526,11 +563,22 @@ def run_values(ck, env):
                 continue  # raw CR / CRLF is normalised by the lexer (newline_sequence): not a Python spelling
             got = jinja_value(env, form)
             n += 1
+            # no form has a raw line break inside the quotes (only between adjacent literals), so the value is
+            # the same under every newline_sequence (C14_EscapesIgnoreNewlineSequence)
+            others = {nl: jinja_value(envs[nl], form) for nl in ("rn", "r")}
+            n += len(others)
             if got != ("value", s):
                 bad += 1
                 ck.violation({"kind": "string-spelling", "value": s, "form": form, "got": list(got)},
                              f"the Python string {s!r} written as {form!r} evaluates to {got}",
                              {"kind": "string-spelling", "outcome": got[0]})
+            elif any(g != ("value", s) for g in others.values()):
+                bad += 1
+                nl, g = next((k, g) for k, g in others.items() if g != ("value", s))
+                ck.violation({"kind": "string-spelling", "value": s, "form": form, "got": list(g), "nl": nl},
+                             f"the Python string {s!r} written as {form!r} evaluates to {g} in an environment with "
+                             f"newline_sequence={envs[nl].newline_sequence!r}",
+                             {"kind": "string-spelling", "outcome": g[0], "newline_sequence": nl})
             else:
                 # the same through a rendered template
                 if n % 5 == 0 and not any(0xD800 <= ord(c) <= 0xDFFF for c in s):
@@ -547,17 +595,17 @@ def run_values(ck, env):
 
 def run(ck):
     load_local_findings(ck)
-    import jinja2
-
-    env = jinja2.Environment()
-    run_numbers(ck, env)
-    run_strings(ck, env)
-    run_values(ck, env)
+    envs = literal_envs()
+    run_numbers(ck, envs["n"])
+    run_strings(ck, envs)
+    run_values(ck, envs)
     ck.exhaustive = False  # the value -> spelling part is sampled
     ck.extra["excluded_shapes"] = [
         "a backslash followed by a non-ASCII character (an invalid escape in Python, deprecated; jinja2 yields \\xNN text)",
         "numeric escapes that would end inside a two-digit class symbol (symbol abstraction only)",
         "raw CR / CRLF inside a literal (normalised to newline_sequence by the lexer, not a Python spelling)",
+        "a raw line feed inside a literal under a non-default newline_sequence (replaced by that sequence: the one thing the "
+        "option is documented to change; judged under the default newline_sequence only)",
         "string prefixes (r'', b'', f'', u'') and triple quotes: not template syntax",
         "spellings the lexer reads as several tokens (1., .5, 1.e5, 1__0, 0b2 ...): the property only speaks about single number tokens",
         "complex literals (1j): not template syntax",
@@ -568,17 +616,17 @@ def run(ck):
 
 def replay(ck, rec):
     load_local_findings(ck)
-    import jinja2
-
-    env = jinja2.Environment()
+    envs = literal_envs()
+    env = envs["n"]
     c = rec["case"]
     if c["kind"] == "number":
         stats = {"single": 0, "rendered": 0, "split_drift": 0}
         check_number(ck, env, c["spec"], c.get("origin", "replay"), stats, signed=c.get("expr") if c.get("expr", c["s"]) != c["s"] else None)
     elif c["kind"] == "string":
         stats = {"undetermined": 0, "rejected": 0, "judged": 0, "python_agrees": 0}
-        check_string_case(ck, env, {"s": c["syms"], "verdict": c["verdict"], "units": c["units"], "toks": [0]}, c["chars"], stats)
+        check_string_case(ck, envs, {"s": c["syms"], "verdict": c["verdict"], "units": c["units"], "toks": [0],
+                                    "nls": [c.get("nl", "n")]}, c["chars"], stats)
     else:
-        got = jinja_value(env, c["form"])
+        got = jinja_value(envs[c.get("nl", "n")], c["form"])
         if got != ("value", c["value"]):
             ck.violation(c, f"still: {c['form']!r} evaluates to {got}", rec.get("fingerprint"))
